@@ -113,6 +113,13 @@ func evalExtract(c Case, res *ev.Result, lc *local) {
 		}
 		nf := len(fields)
 		offsetOf = func(i int) int { return nf - 1 - i }
+	case "beyond-first": // a field past the payload listed first, lenient extraction: the others must still be extracted
+		beyond := modbus.Field{Name: "beyond", ServerAddress: "s", UnitID: 1, Address: uint16(c.Start + n), Type: modbus.FieldTypeCoil}
+		if c.Start+n > 65535 {
+			return
+		}
+		fields = append(modbus.Fields{beyond}, fields...)
+		offsetOf = func(i int) int { return i - 1 }
 	case "last-only": // a request whose only field is the last coil of the window
 		fields = fields[len(fields)-1:]
 		nf := n
@@ -137,14 +144,21 @@ func evalExtract(c Case, res *ev.Result, lc *local) {
 				pan = fmt.Sprint(rec)
 			}
 		}()
-		vals, err = br.ExtractFields(resp, false)
+		vals, err = br.ExtractFields(resp, c.Order == "beyond-first")
 	}()
-	if pan != "" || err != nil || len(vals) != len(fields) {
+	// (lenient extraction reports "there were errors" next to the values: that is expected with the field past the payload)
+	if pan != "" || (err != nil && c.Order != "beyond-first") || len(vals) != len(fields) {
 		lc.evals++
 		res.Violate(ev.Violation{Check: "coil", Kind: "extract-fails", Attrs: map[string]any{"part": "extract"}, Msg: fmt.Sprintf("%+v: ExtractFields: panic=%q err=%v values=%d/%d", c, pan, err, len(vals), len(fields)), Case: c})
 		return
 	}
 	for i, fv := range vals {
+		if c.Order == "beyond-first" && i == 0 {
+			if fv.Error == nil {
+				res.Violate(ev.Violation{Check: "coil", Kind: "accepts-outside", Attrs: map[string]any{"part": "extract"}, Msg: fmt.Sprintf("%+v: the field past the payload was extracted without error", c), Case: c})
+			}
+			continue
+		}
 		cc := c
 		cc.Addr = c.Start + offsetOf(i)
 		b, _ := fv.Value.(bool)
@@ -306,6 +320,7 @@ func run(tier string, shard, nsh int, res *ev.Result) {
 								if L <= 2 || k == 0 {
 									evalExtract(Case{Part: "extract", API: "BuilderRequest.ExtractFields", Len: L, Start: s, Pattern: pat, K: k, RTU: rtu, Order: "reversed"}, res, lc)
 									evalExtract(Case{Part: "extract", API: "BuilderRequest.ExtractFields", Len: L, Start: s, Pattern: "ones", K: k, RTU: rtu, Order: "last-only"}, res, lc)
+									evalExtract(Case{Part: "extract", API: "BuilderRequest.ExtractFields", Len: L, Start: s, Pattern: pat, K: k, RTU: rtu, Order: "beyond-first"}, res, lc)
 								}
 							}
 						}
